@@ -299,6 +299,27 @@ pub fn run_c16(ctx: &Ctx, rep: &mut Report) {
             },
         );
     }
+    // (a5) keys in every letter case (and a few other key shapes): "the same keys in order"
+    {
+        let names: [&str; 16] = ["rel", "anchor", "hreflang", "media", "title", "type", "rt", "if", "sz", "ct", "obs", "rev", "title*", "x-y", "é", "k1"];
+        let mut offsets = vec![0u64];
+        for nm in &names {
+            offsets.push(offsets.last().unwrap() + (1u64 << nm.chars().count()));
+        }
+        let n = *offsets.last().unwrap() * 2;
+        ctx.family(rep, "a5-keys-in-every-letter-case", "keys {rel, anchor, hreflang, media, title, type, rt, if, sz, ct, obs, rev, title*, x-y, é, k1} in every upper/lower-case spelling x {attr, attr_quoted}, next to the same key in lower case", n, true, |i, rep| {
+            let j = i / 2;
+            let k = match offsets.binary_search(&j) {
+                Ok(k) => k,
+                Err(k) => k - 1,
+            };
+            let mask = j - offsets[k];
+            let key: String = names[k].chars().enumerate().map(|(p, c)| if mask >> p & 1 == 1 { c.to_uppercase().next().unwrap_or(c) } else { c }).collect();
+            let v = if i % 2 == 0 { Val::Attr("v 1".into()) } else { Val::Quoted("w".into()) };
+            let doc: Doc = vec![Link { target: "/x".into(), attrs: vec![(key, v), (names[k].to_string(), Val::U32(7))] }, Link { target: "/y".into(), attrs: vec![] }];
+            c16_case("a5-keys-in-every-letter-case", i, n, &doc, false, ctx, rep);
+        });
+    }
     // (b1) one-link documents: target x <= 2 (3) attributes over 26 choices
     {
         let maxattrs = if ctx.thorough() { 3 } else { 2 };
@@ -394,6 +415,10 @@ fn within(hay: &str, sub: &str) -> Option<usize> {
     let s0 = sub.as_ptr() as usize;
     if s0 >= h0 && s0 + sub.len() <= h0 + hay.len() {
         Some(s0 - h0)
+    } else if hay.contains(sub) {
+        // equal text that does not point into the input (an interned key, say): a substring by content, position
+        // unknown - the statement speaks about text, not about pointers
+        Some(usize::MAX)
     } else {
         None
     }
@@ -581,6 +606,63 @@ pub fn run_c17(ctx: &Ctx, rep: &mut Report) {
                     Ok(Ok((links, attrs, quoted, err))) => {
                         rep.count(if err { "ends-with-parse-error" } else { "parsed-to-the-end" });
                         rep.bucket(&("scalar", d[1], links.min(4), attrs.min(4), quoted.min(3), err));
+                    }
+                }
+            },
+        );
+    }
+    // attribute keys in every letter case (parameter names are case-insensitive in RFC 8288; the parser must still
+    // hand back what the input says)
+    {
+        let names: [&str; 14] = ["rel", "anchor", "hreflang", "media", "title", "type", "rt", "if", "sz", "ct", "obs", "rev", "title*", "x-y"];
+        let mut offsets = vec![0u64];
+        for nm in &names {
+            offsets.push(offsets.last().unwrap() + (1u64 << nm.len()));
+        }
+        let short = 52 + 52 * 52 + 52 * 52 * 52;
+        let total_masks = *offsets.last().unwrap();
+        let n = (total_masks + short) * 3;
+        ctx.family(
+            rep,
+            "attribute-keys-in-every-letter-case",
+            "keys {rel, anchor, hreflang, media, title, type, rt, if, sz, ct, obs, rev, title*, x-y} in every upper/lower-case spelling, and every key of 1..=3 ASCII letters (both cases), in the forms `<a>;K=v`, `<a>;K`, `<a>;k=1;K=\"v\",<b>;K=2`",
+            n,
+            true,
+            |i, rep| {
+                let form = i % 3;
+                let j = i / 3;
+                let key: String = if j < total_masks {
+                    let k = match offsets.binary_search(&j) {
+                        Ok(k) => k,
+                        Err(k) => k - 1,
+                    };
+                    let mask = j - offsets[k];
+                    names[k].chars().enumerate().map(|(p, c)| if mask >> p & 1 == 1 { c.to_ascii_uppercase() } else { c }).collect()
+                } else {
+                    let mut x = j - total_masks;
+                    let letters = b"abcdefghijklmnopqrstuvwxyzABCDEFGHIJKLMNOPQRSTUVWXYZ";
+                    let len = if x < 52 {
+                        1
+                    } else if x < 52 + 52 * 52 {
+                        x -= 52;
+                        2
+                    } else {
+                        x -= 52 + 52 * 52;
+                        3
+                    };
+                    (0..len).map(|p| letters[((x / 52u64.pow(p)) % 52) as usize] as char).collect()
+                };
+                let s = match form {
+                    0 => format!("<a>;{}=v", key),
+                    1 => format!("<a>;{}", key),
+                    _ => format!("<a>;k=1;{}=\"v\",<b>;{}=2", key, key),
+                };
+                match guard(|| c17_walk(&s)) {
+                    Err(pn) => rep.violation(viol("attribute-keys-in-every-letter-case", i, format!("C17/panic@{}", pn.site()), pn.message, Json::obj().set("input", s.as_str()))),
+                    Ok(Err((sig, what))) => rep.violation(viol("attribute-keys-in-every-letter-case", i, sig, what, Json::obj().set("input", s.as_str()))),
+                    Ok(Ok((links, attrs, quoted, err))) => {
+                        rep.count(if err { "ends-with-parse-error" } else { "parsed-to-the-end" });
+                        rep.bucket(&("keycase", form, key.len().min(4), links.min(4), attrs.min(4), quoted.min(3), err));
                     }
                 }
             },
